@@ -63,6 +63,10 @@ def items(tier):
         add("linsolve", "real-n%d-diagonal" % n, n=n, mclass="diagonal", lda=False, solver="real")
         add("linsolve", "real-n%d-sparse" % n, n=n, mclass="general", sparse=True, lda=False, solver="real")
     add("linsolve", "real-n2-symindef", n=2, mclass="symmetric", lda=False, solver="real", indef=True)
+    # tolerances of the matrix classification modelled as the inequalities NumPy evaluates (np.allclose), couplings assumed
+    # to be at least 1e-6 in absolute value: no coupling may be dropped by the choice of the solver
+    add("linsolve", "real-n2-general-closetol", n=2, mclass="general", lda=False, solver="real", nonsym=True, faithful_close=True)
+    add("linsolve", "real-n2-sym-closetol", n=2, mclass="symmetric", lda=False, solver="real", indef=True, faithful_close=True)
     add("linsolve", "real-n2-general-lda", n=2, mclass="general", lda=True, solver="real", nonsym=True)
     add("linsolve", "real-n2-2rhs", n=2, mclass="general", nrhs=2, lda=False, solver="real", nonsym=True)
     add("linsolve", "real-n2-cplx", n=2, mclass="general", cplx=True, lda=False, solver="real", nonsym=True)
@@ -130,6 +134,12 @@ def sc_linsolve(V, P, cfg):
     b = A @ xs
     sparse = cfg.get("sparse", False)
     if V.symbolic:
+        if cfg.get("faithful_close"):
+            for i in range(n):
+                for j in range(n):
+                    if i != j:
+                        e = A[i, j]
+                        V.assume(abs(e.re if isinstance(e, C) else e) * 10 ** 6 >= 1, "couplings |A_ij| >= 1e-6")
         if cfg.get("nonsym"):
             V.assume(A[0, 1] != A[1, 0], "general class: A is not symmetric (the symmetric class has its own items)")
         if cfg.get("indef"):
@@ -220,6 +230,9 @@ SCEN = dict(linsolve=sc_linsolve, inverse=sc_inverse, sysofeq=sc_sysofeq, statco
 
 
 def run_item(cfg, tier):
+    if cfg.get("faithful_close"):
+        from symx import npshim
+        npshim.EXACT_CLOSE = False      # forked worker only
     if cfg.get("logical_dtype"):
         from symx.array import enable_logical_dtype
         enable_logical_dtype(True)      # forked worker only
